@@ -1,17 +1,24 @@
 #!/usr/bin/env python3
-"""Print the table of seeded changes and which checks caught them."""
-import glob, json, os
+"""Print the table of seeded changes and which checks caught them
+(detections / runs over the VERIF_SEED values tried, quick tier)."""
+import collections, glob, json, os
 HERE = os.path.dirname(os.path.dirname(os.path.abspath(__file__)))
 rows = []
 for d in sorted(glob.glob(os.path.join(HERE, "seeded", "C*_*"))):
     m = json.load(open(os.path.join(d, "meta.json")))
     v = m.get("verified", {})
     name = os.path.basename(d)
-    caught = sorted({k.split("/")[0] for k, r in v.get("checks", {}).items() if r["exit"] == 1})
-    missed = sorted({k.split("/")[0] for k, r in v.get("checks", {}).items() if r["exit"] == 0} - set(caught))
+    hit = collections.Counter(); runs = collections.Counter()
+    for k, r in v.get("checks", {}).items():
+        c = k.split("/")[0]
+        runs[c] += 1
+        hit[c] += r["exit"] == 1
+    caught = [f"{c} {hit[c]}/{runs[c]}" for c in sorted(runs) if hit[c]]
+    quiet = [c for c in sorted(runs) if not hit[c]]
     title = (m.get("title") or m.get("what_it_breaks") or "")[:90].replace("|", "/")
-    rows.append((name, "yes" if v.get("confirmed") else str(v.get("confirmed")), ",".join(caught) or "-", ",".join(missed) or "", title))
-print("| seed | confirmed | caught by | run but quiet | what |")
+    rows.append((name, "yes" if v.get("confirmed") else str(v.get("confirmed")),
+                 ", ".join(caught) or "-", ",".join(quiet), title))
+print("| seed | confirmed | caught by (detections/runs) | run but quiet | what |")
 print("|---|---|---|---|---|")
 for r in rows:
     print("| " + " | ".join(r) + " |")
